@@ -65,8 +65,6 @@ def run(tier, v):
         "trace_events": len(rows_c) + len(rows_t), "trace_states": tstates,
         "random_configurations": len(runs_t),
         "runs_via_config_decoding": len([r for r in rows_t if r["ev"] == "conf" and "viaconf=true" in r["desc"]]),
-        "runs_excluded_failed_schedule_factory": len([r for r in rows_t + rows_c if r["ev"] == "end"
-                                                      and pc.FACTORY_DEFECT in r["err"]]),
         "runs_with_discards": len({r["run"] for r in rows_t if r["ev"] == "discard"}),
         "runs_out_of_ammo": len({r["run"] for r in rows_t if r["ev"] == "acq" and not r["ok"]}),
         "samples": [pc.sample_of(rows_t, x) for x in runs_t[:2]] + [pc.sample_of(rows_c, 0)],
